@@ -127,6 +127,34 @@ func runCHSite(r *Run, s *chSite) {
 		return
 	}
 	tag := pickTag(fn, T, cv)
+	var inline func(*ssa.Function, int) bool
+	if tag == nil {
+		// the dispatch may have been extracted into a helper: follow exactly the call chain to it
+		grp := funcGroup(fn)
+		var h *ssa.Function
+		for _, gf := range grp[1:] {
+			if t := pickTag(gf, T, cv); t != nil && h == nil {
+				h, tag = gf, t
+			}
+		}
+		if h != nil {
+			chain := map[*ssa.Function]bool{h: true}
+			calls := func(a, b *ssa.Function) bool {
+				for _, c := range callsIn(a) {
+					if staticCallee(c) == b {
+						return true
+					}
+				}
+				return false
+			}
+			for _, g := range grp[1:] {
+				if g != h && calls(fn, g) && calls(g, h) {
+					chain[g] = true
+				}
+			}
+			inline = func(callee *ssa.Function, depth int) bool { return chain[callee] && depth <= 3 }
+		}
+	}
 	if tag == nil {
 		r.Ob(s.Rule, shortRel(s.Rel)+"."+s.fnName(), s.Claim).Undecide(r.pos(fn.Pos()), "no dispatch on a %s value compared with %s found", s.TagType[1], s.TagConst)
 		return
@@ -160,7 +188,7 @@ func runCHSite(r *Run, s *chSite) {
 			return
 		}
 	}
-	cases := casesOf(fn, tag, consts, extra, nil)
+	cases := casesOfInline(fn, tag, consts, extra, nil, inline)
 	r.count("ch_cases", len(cases))
 	for _, cr := range cases {
 		if strings.HasPrefix(cr.Const, "_") {
